@@ -3723,11 +3723,14 @@ func (r *JournalReader) Next() (err error) {
 	}
 
 	// Read remaining fields from header.
-	r.nonce = binary.BigEndian.Uint32(hdr[12:])  // cksumInit
-	r.commit = binary.BigEndian.Uint32(hdr[16:]) // dbSize
+	r.nonce = binary.BigEndian.Uint32(hdr[12:]) // cksumInit
 
-	// Only read sector and page size from first journal header.
+	// Only read database size, sector size and page size from first journal
+	// header. SQLite truncates the database to the size in the first header;
+	// bytes after the last valid record that happen to look like another
+	// header must not be able to change the size the database is restored to.
 	if r.offset == 0 {
+		r.commit = binary.BigEndian.Uint32(hdr[16:]) // dbSize
 		r.sectorSize = binary.BigEndian.Uint32(hdr[20:])
 
 		// An invalid sector size means the header is garbage. SQLite treats
